@@ -16,17 +16,24 @@ MANIFEST = {
                  "against an independent recursive-descent reference interpreter",
     "text": "Depth 1: every condition of the value tables in every spelling (32 keyword aliases x {== eq != ne < lt <= le > gt "
             ">= ge, implicit equality, =~} x bare/'single'/\"double\"/int/float literals, reversed comparisons, ranges, implicit "
-            "lists; 825 strings for 145 abstract conditions). Depth 2: every tree leaf | not leaf | leaf conn leaf over 21 "
-            "representative leaves (one per syntactic class and per operator spelling) x {and,&&,or,||} x {not,!}, rendered flat / "
-            "minimally / fully parenthesised / every leaf parenthesised (1827 trees, ~3.6k strings). Depth 3, quick: the "
-            "three-leaf slice (a c1 b) c2 c | a c1 (b c2 c) over 3 leaves in all 16 connective spellings (864 trees, ~1.3k "
-            "strings); thorough: every tree of depth <= 3 over 4 leaves plus the slice over 5 leaves (25k trees, ~58k strings); "
-            "each rendered flat (re-associated by precedence), minimal and full. Plus parenthesis nesting 1..5, 25 whitespace "
-            "variants, 103 malformed strings. Topology: 42 atoms, two protein chains/segments, water, ions, repeated names and "
-            "residue numbers. Oracles: select(e) == reference and strictly increasing; all spelling/parenthesisation variants of "
-            "one abstract expression agree; eval(select_expression(e)) == select(e); malformed strings raise. Right level: the "
-            "property quantifies over programs of a compositional language; mis-parses appear only in particular operator "
-            "combinations, which enumeration of all combinations to a depth reaches and hand-written cases do not.",
+            "lists; 825 strings) plus operator-like literals: every string-keyword alias (11) x 12 words spelled like operator "
+            "words in upper/mixed case (NE Ne OR AND NOT TO EQ LT LE GT GE Or; NE/Ne are real atom, residue and element names "
+            "of the fixture) alone, with == != eq ne, reversed, bare and quoted, and as first / middle / last element of "
+            "implicit lists (2640 strings). Depth 2: every tree leaf | not leaf | leaf conn leaf over 21 representative leaves "
+            "x {and,&&,or,||} x {not,!}, rendered flat / minimally / fully parenthesised / every leaf parenthesised (1827 trees, "
+            "~3.6k strings); the operator-like literals under every connective (1296 trees). Depth 3, quick: the three-leaf "
+            "slice over 3 leaves in all 16 connective spellings (864 trees); thorough: every tree of depth <= 3 over 4 leaves "
+            "plus the slice over 5 leaves (25k trees, ~58k strings). Plus parenthesis nesting 1..5, 25 whitespace variants, ~100 "
+            "malformed strings. History layer: every edit sequence of length 1..2 (90, all ordered pairs) over 9 edits "
+            "{insert_atom at the front / inside a bonded water, delete_atom_by_index of a bonded water / side-chain atom, "
+            "add_bond, rename atom, rename residue (2), add_residue+add_atom+add_bond at the end} applied to ONE Topology "
+            "object x 28 expressions touching every keyword, evaluated before the edits (fills caches), after every edit, and "
+            "on a from-scratch copy of the edited topology (~6.8k cases). Topology: 50 atoms, three protein chains/segments, "
+            "water, ions, repeated names and residue numbers. Oracles: select(e) == reference and strictly increasing; all "
+            "spelling/parenthesisation variants of one abstract expression agree; eval(select_expression(e)) == select(e); "
+            "malformed strings raise; edited object == reference on the re-walked atom table == from-scratch copy. Right "
+            "level: the property quantifies over programs of a compositional language (and over the topologies they run on); "
+            "mis-parses and stale derived attributes appear only in particular combinations, which enumeration reaches.",
     "note": "Trusted base: the hand-written atom table and reference parser (self-checked: direct tree evaluation == "
             "reference parse of every meaning-preserving rendering). Only type-consistent conditions are generated (string "
             "keywords with ==/!=/=~, numeric keywords with numbers; thresholds >= 0.4 Da away from every atomic mass; regex "
@@ -34,6 +41,11 @@ MANIFEST = {
             ">= 2 uses representative leaves, not every alias. Strings on which the documentation is silent (bool keyword "
             "compared with a literal, missing whitespace, `not(x)`, negative numbers, True/None) are executed and recorded, "
             "not judged. segment_id/segname are not in the documentation table but are included with the obvious meaning. "
+            "History layer: the atom table of an edited topology is rebuilt by walking its chains/residues/atoms/bonds "
+            "(trusted attribute reads) with name-based truth tables that reproduce the hand-written table exactly on the "
+            "unedited fixture (asserted); delete_atom_by_index leaves the deleted atom's bonds in top.bonds and the "
+            "documentation does not say whether they count for n_bonds, so atoms whose truth value depends on that are "
+            "excluded per expression and counted; edits keep the atom order consistent with the residue order. "
             "Each evaluation runs in a fresh thread so that the Python recursion depth available to the parser is the same "
             "as in a top-level script. For depth >= 2 programs select() and select_expression() share one parse result "
             "(the parse costs ~0.1 s CPU); depth-1 and all other strings are parsed by each method separately.",
